@@ -672,11 +672,8 @@ class HyperElasticState:
 
         Tx, Ty, Tz = T[..., 0], T[..., 1], T[..., 2]
 
-        dim = self._GetDims()[2]
-        if dim == 1:
-            Ty = Tz = 0
-        elif dim == 2:
-            Tz = 0
+        # C is padded to 3x3 with ones on the missing diagonal (plane strain): the components
+        # of T above `dim` keep contributing Ty**2 + Tz**2 to T.C.T, so they must not be dropped.
 
         return Tx, Ty, Tz
 
